@@ -52,8 +52,11 @@ class Elbow(RoundSolidShape):
             )
 
         if start_face:
+            # the new elbow leaves the source through its start face, against its normal
             sketch = source.sketch_1
+            normal = -sketch.normal
         else:
             sketch = source.sketch_2
+            normal = sketch.normal
 
-        return cls(sketch.center, sketch.radius_point, sketch.normal, sweep_angle, arc_center, rotation_axis, radius_2)
+        return cls(sketch.center, sketch.radius_point, normal, sweep_angle, arc_center, rotation_axis, radius_2)
